@@ -17,7 +17,7 @@ use events_once::{
     BoxedReceiver, BoxedSender, Disconnected, EmbeddedEvent, Event, EventLake, EventPool, IntoValueError, PooledReceiver, PooledSender, RawEventLake, RawEventPool, RawPooledReceiver,
     RawPooledSender, RawReceiver, RawSender,
 };
-use p_events_once::{Ledger, Tracked, waker};
+use p_events_once::{Ledger, Tracked, waker, waker_shared};
 use proptest::prelude::*;
 use serde::{Deserialize, Serialize};
 use vcommon::{Ctx, Failure, Harness, Verdict};
@@ -42,6 +42,9 @@ struct Case {
     /// true: keep the receiver alive until both tasks are done (the harness then checks the wake
     /// obligation and the final outcome); false: drop it at the end of its script
     park: bool,
+    /// wakers whose clones share one identity (will_wake true: "re-poll with the same waker")
+    #[serde(default)]
+    same_identity: bool,
     schedule: Vec<u8>,
 }
 
@@ -53,12 +56,13 @@ fn case_strategy() -> impl Strategy<Value = Case> {
         1 => Just(RStep::Yield),
     ];
     let sched_byte = prop_oneof![5 => Just(0u8), 2 => 128u8..=255, 1 => 1u8..128];
-    (0u8..6, prop::bool::weighted(0.65), 0u8..3, prop::collection::vec(step, 0..6), any::<bool>(), prop::collection::vec(sched_byte, 0..40)).prop_map(|(storage, send, sender_yields, steps, park, schedule)| Case {
+    (0u8..6, prop::bool::weighted(0.65), 0u8..3, prop::collection::vec(step, 0..6), any::<bool>(), any::<bool>(), prop::collection::vec(sched_byte, 0..40)).prop_map(|(storage, send, sender_yields, steps, park, same_identity, schedule)| Case {
         storage,
         send,
         sender_yields,
         steps,
         park,
+        same_identity,
         schedule,
     })
 }
@@ -112,6 +116,7 @@ struct RecvLog {
     polls: u32,
     pending_polls: u32,
     repolls_new_waker: u32,
+    repolls_same_waker: u32,
     into_value_pending: u32,
     is_ready_true_then_pending: bool,
     parked: bool,
@@ -218,6 +223,9 @@ fn receiver_task<R: Rcv>(case: &Case, r: R, l2: &Arc<Ledger>, parked: &Arc<Mutex
     let mut lg = RecvLog::default();
     let mut last_waker: Option<u8> = None;
     let mut saw_ready = false;
+    // one root waker per id for the whole script: polling twice with id w is a re-poll with the
+    // same waker (will_wake true in the shared-identity flavour)
+    let mut roots: Vec<Option<std::task::Waker>> = vec![None, None, None];
     for st in &case.steps {
         let Some(rx) = r.as_mut() else { break };
         match st {
@@ -228,9 +236,16 @@ fn receiver_task<R: Rcv>(case: &Case, r: R, l2: &Arc<Ledger>, parked: &Arc<Mutex
                 }
             }
             RStep::Poll(w) => {
-                let wk = waker(usize::from(*w), l2, true, None);
+                let slot = &mut roots[usize::from(*w) % 3];
+                if slot.is_none() {
+                    *slot = Some(if case.same_identity { waker_shared(usize::from(*w), l2, None) } else { waker(usize::from(*w), l2, true, None) });
+                }
+                let wk = slot.as_ref().expect("just set").clone();
                 let mut cx = Context::from_waker(&wk);
                 lg.polls += 1;
+                if last_waker == Some(*w) && lg.last_pending.is_some() {
+                    lg.repolls_same_waker += 1;
+                }
                 if last_waker.is_some() && last_waker != Some(*w) && lg.last_pending.is_some() {
                     lg.repolls_new_waker += 1;
                 }
@@ -362,6 +377,9 @@ fn check(case: &Case, ctx: &mut Ctx, property: &str) -> Verdict {
     }
     if lg.repolls_new_waker > 0 {
         ctx.classify("re-poll-new-waker");
+    }
+    if lg.repolls_same_waker > 0 {
+        ctx.classify(if case.same_identity { "re-poll-same-waker(will_wake)" } else { "re-poll-same-id-distinct-clone" });
     }
     if lg.into_value_pending > 0 {
         ctx.classify("into_value-pending");
